@@ -7,7 +7,7 @@ from .report import main_wrap
 
 DRIVERS = {
     "C02": ("synth", "C02"), "C03": ("synth", "C03"), "C06": ("synth", "C06"),
-    "C09": ("c09", "C09"), "C04": ("c04", "C04"), "C01": ("c01", "C01"), "C05": ("c05", "C05"), "C07": ("c07", "C07"), "C11": ("c11", "C11"), "C14": ("c14", "C14"), "C13": ("c13", "C13"), "C15": ("c15", "C15"), "C16": ("c15", "C16"), "C12": ("c11", "C12"), "C08": ("c08", "C08"),
+    "C09": ("c09", "C09"), "C04": ("c04", "C04"), "C01": ("c01", "C01"), "C05": ("c05", "C05"), "C07": ("c07", "C07"), "C11": ("c11", "C11"), "C14": ("c14", "C14"), "C13": ("c13", "C13"), "C15": ("c15", "C15"), "C10": ("c10", "C10"), "C17": ("c17", "C17"), "C18": ("c18", "C18"), "C16": ("c15", "C16"), "C12": ("c11", "C12"), "C08": ("c08", "C08"),
 }
 
 
